@@ -158,6 +158,7 @@ pub fn plan(id: &str) -> Option<Plan> {
             floor: 50,
             engines: vec![
                 Engine { name: "sim", salt: 1, quick: 6000, thorough: 400_000, serial: false, run: Box::new(|s, t| c11::scenario(s, t, false)) },
+                Engine { name: "unwind-context", salt: 7, quick: 200, thorough: 5000, serial: false, run: Box::new(|s, _t| c11::unwind_context(s)) },
                 Engine { name: "stress", salt: 2, quick: 2, thorough: 10, serial: true, run: Box::new(|s, t| c11::stress(s, t.pick(20_000, 100_000))) },
                 Engine { name: "stress-threads", salt: 4, quick: 4, thorough: 24, serial: true, run: Box::new(|s, t| c11::stress_threads(s, t.pick(20_000, 100_000))) },
                 Engine { name: "miri", salt: 3, quick: 8, thorough: 64, serial: false, run: Box::new(|s, t| miri::run("C11", s, t.pick(2, 4), None, 0.0)) },
